@@ -532,14 +532,14 @@ pub fn oracle_c08(scn: &Scenario, t: &Trace, st: &mut ExploreStats) -> Vec<Viola
     // did the client run into the fault?
     // (the malformed line is the last 11 bytes of the stream; the client may stop reading in the
     // middle of it once the line cannot become valid any more)
-    let garbage_read = matches!(fault, Ev::Garbage) && t.read_pos + 11 > t.s2c.len() || matches!(fault, Ev::GarbageOpen) && t.read_pos + GARBAGE_OPEN.len() > t.s2c.len();
+    let garbage_read = matches!(fault, Ev::Garbage) && t.read_pos + 11 > t.s2c.len() || matches!(fault, Ev::GarbageOpen) && t.read_pos + GARBAGE_OPEN.len() > t.s2c.len() || matches!(fault, Ev::HugeBinary) && t.read_pos + crate::engines::loopmc::HUGE_BINARY.len() > t.s2c.len();
     let ended = t.saw_eof || t.saw_read_err || t.saw_write_err || garbage_read || t.handles_dropped;
     if !ended {
         st.count("fault_never_noticed");
         // a client that is alive always has a read outstanding (idling or waiting for a reply), or
         // gets back to one after its re-idle delay: a peer close, a reset, a read error or garbage
         // cannot stay unnoticed until the end of the drain. (A write error is only met on a write.)
-        if matches!(fault, Ev::Close(_) | Ev::CloseRst(_) | Ev::ReadErr | Ev::ReadErrAfter(_) | Ev::Garbage | Ev::GarbageOpen) && matches!(t.connect_result, Some(Ok(_))) {
+        if matches!(fault, Ev::Close(_) | Ev::CloseRst(_) | Ev::ReadErr | Ev::ReadErrAfter(_) | Ev::Garbage | Ev::GarbageOpen | Ev::HugeBinary) && matches!(t.connect_result, Some(Ok(_))) {
             out.push(Violation::new(
                 "C08/connection-end-not-noticed",
                 format!("{} went unnoticed: after the drain (everything delivered, ticks) the client has still not run into it, is_connection_closed() = {:?} (choices {:?})", fault.name(), t.closed_flag, choices),
@@ -556,6 +556,7 @@ pub fn oracle_c08(scn: &Scenario, t: &Trace, st: &mut ExploreStats) -> Vec<Viola
         Ev::WriteErr => "write_error",
         Ev::Garbage => "garbage",
         Ev::GarbageOpen => "garbage_without_line_end",
+        Ev::HugeBinary => "impossible_binary_length_then_end_of_stream",
         _ => "drop_handles",
     }));
     // every request resolved
@@ -654,7 +655,7 @@ pub fn oracle_c08(scn: &Scenario, t: &Trace, st: &mut ExploreStats) -> Vec<Viola
         Ev::CloseRst(_) => ref_decode(&t.s2c[scn.greeting.len().min(t.s2c.len())..]).end != RefEnd::Clean || t.saw_write_err,
         Ev::ReadErr | Ev::ReadErrAfter(_) => t.saw_read_err,
         Ev::WriteErr => t.saw_write_err,
-        Ev::Garbage | Ev::GarbageOpen => garbage_read,
+        Ev::Garbage | Ev::GarbageOpen | Ev::HugeBinary => garbage_read,
         _ => false,
     };
     if unclean {
@@ -779,6 +780,14 @@ pub fn micro(tier: Tier) -> Scenario {
     s
 }
 
+pub fn micro_non_ascii(tier: Tier) -> Scenario {
+    let mut s = micro(tier);
+    s.name = "micro-1-caller-1-notification-non-ascii-name".into();
+    s.notify_names = vec!["caf\u{e9}_\u{4fa1}"];
+    s.split_menu = SplitMenu::Bytes;
+    s
+}
+
 pub fn micro2(_tier: Tier) -> Scenario {
     let mut s = Scenario::new("micro-2-requests-2-notifications", vec![caller(vec![Op::Raw("cmd A1".into()), Op::Raw("cmd A2".into())])]);
     s.notify_names = vec!["player", "mixer"];
@@ -796,7 +805,7 @@ pub fn s4(tier: Tier) -> Scenario {
     s.notify_budget = 1;
     s.split_budget = 1;
     s.split_menu = tier.pick(SplitMenu::Lines, SplitMenu::Bytes);
-    s.faults = vec![FaultKind::Close, FaultKind::CloseRst, FaultKind::ReadErr, FaultKind::ReadErrAfter, FaultKind::WriteErr, FaultKind::Garbage, FaultKind::GarbageOpen, FaultKind::DropHandles];
+    s.faults = vec![FaultKind::Close, FaultKind::CloseRst, FaultKind::ReadErr, FaultKind::ReadErrAfter, FaultKind::WriteErr, FaultKind::Garbage, FaultKind::GarbageOpen, FaultKind::HugeBinary, FaultKind::DropHandles];
     s.fault_budget = 1;
     s.late_probe = true;
     s
@@ -808,7 +817,7 @@ pub fn micro_fault(tier: Tier) -> Scenario {
     s.notify_budget = 1;
     s.split_budget = 1;
     s.split_menu = tier.pick(SplitMenu::Lines, SplitMenu::Bytes);
-    s.faults = vec![FaultKind::Close, FaultKind::CloseRst, FaultKind::ReadErr, FaultKind::ReadErrAfter, FaultKind::WriteErr, FaultKind::Garbage, FaultKind::GarbageOpen, FaultKind::DropHandles];
+    s.faults = vec![FaultKind::Close, FaultKind::CloseRst, FaultKind::ReadErr, FaultKind::ReadErrAfter, FaultKind::WriteErr, FaultKind::Garbage, FaultKind::GarbageOpen, FaultKind::HugeBinary, FaultKind::DropHandles];
     s.fault_budget = 1;
     s.late_probe = true;
     s
@@ -819,7 +828,7 @@ pub fn s4c(_tier: Tier) -> Scenario {
     let mut s = Scenario::new("S4c-faults-and-cancellation", vec![caller(vec![Op::Raw("cmd A1".into())]), CallerProg { ops: vec![Op::Raw("cmd B1".into()), Op::Raw("cmd B2".into())], pipeline: true }]);
     s.cancel_budget = 1;
     s.split_budget = 1;
-    s.faults = vec![FaultKind::Close, FaultKind::ReadErr, FaultKind::ReadErrAfter, FaultKind::Garbage];
+    s.faults = vec![FaultKind::Close, FaultKind::ReadErr, FaultKind::ReadErrAfter, FaultKind::Garbage, FaultKind::WriteErr, FaultKind::HugeBinary];
     s.fault_budget = 1;
     s.late_probe = true;
     s
@@ -1109,7 +1118,7 @@ pub fn find_scenario_any(name: &str) -> Option<Scenario> {
 }
 
 fn find_scenario(name: &str, tier: Tier) -> Option<Scenario> {
-    let mut all = vec![s1(tier), s1p(tier), s2(tier), s3(tier), micro(tier), micro2(tier), s4(tier), micro_fault(tier), s5(tier), micro_ticks(tier), micro_stall(tier), micro_cancel(tier), s6(tier), s4c(tier), idle_refused(tier), art_fault(tier), early_fault(tier)];
+    let mut all = vec![s1(tier), s1p(tier), s2(tier), s3(tier), micro(tier), micro2(tier), s4(tier), micro_fault(tier), s5(tier), micro_ticks(tier), micro_stall(tier), micro_cancel(tier), s6(tier), s4c(tier), idle_refused(tier), art_fault(tier), early_fault(tier), micro_non_ascii(tier)];
     for base in [micro(Tier::Quick), micro2(Tier::Quick)] {
         let mut e = base.clone();
         e.split_menu = SplitMenu::Lines;
@@ -1251,6 +1260,9 @@ pub fn run_c04(tier: Tier) -> i32 {
     ctx.assume("the simulated server reports pending changes in MPD's fixed subsystem order and collapses repeated changes of one subsystem, as MPD's idle flags do");
     let plans = vec![
         Plan { scn: micro(tier), bound: 99 },
+        // (round 7) names outside ASCII (a subsystem this library has never heard of), split at every byte -
+        // also inside a character
+        Plan { scn: micro_non_ascii(tier), bound: 99 },
         Plan { scn: micro_ticks(tier), bound: tier.pick(4, 6) },
         Plan { scn: micro2(tier), bound: tier.pick(5, 7) },
         Plan { scn: s3(tier), bound: tier.pick(4, 5) },
